@@ -26,6 +26,9 @@ type class struct {
 	match    func(o *proxyv1alpha1.UpstreamCluster) bool
 	handmade func(m *material) *proxyv1alpha1.UpstreamCluster
 	demo     func(o *proxyv1alpha1.UpstreamCluster) (broken bool, how string) // nil = applyDemo
+	// named: the statement itself names the class among the objects that "are rejected" (quoted words). Such a class is
+	// judged even when no consumer can be shown to break at apply time (the demonstration is still run and recorded).
+	named string
 }
 
 func base(m *material, scheme string) *proxyv1alpha1.UpstreamCluster {
@@ -40,7 +43,9 @@ func withSchema(o *proxyv1alpha1.UpstreamCluster, s proxyv1alpha1.FlowControlSch
 	return o
 }
 
-func isHTTPx(e string) bool { return strings.HasPrefix(e, "http://") || strings.HasPrefix(e, "https://") }
+func isHTTPx(e string) bool {
+	return strings.HasPrefix(e, "http://") || strings.HasPrefix(e, "https://")
+}
 
 func httpsFirst(o *proxyv1alpha1.UpstreamCluster) bool {
 	return len(o.Spec.Servers) > 0 && strings.HasPrefix(o.Spec.Servers[0].Endpoint, "https://")
@@ -183,7 +188,8 @@ var classes = []class{
 		},
 	},
 	{
-		name: "client-ca-unusable",
+		name:  "client-ca-unusable",
+		named: "unusable key/certificate/CA data",
 		match: func(o *proxyv1alpha1.UpstreamCluster) bool {
 			cc := &o.Spec.ClientConfig
 			if !httpsFirst(o) || len(cc.CAData) == 0 {
@@ -315,7 +321,8 @@ var classes = []class{
 		},
 	},
 	{
-		name: "schema-no-limiter-type",
+		name:  "schema-no-limiter-type",
+		named: "incomplete ... flow-control configurations",
 		match: func(o *proxyv1alpha1.UpstreamCluster) bool {
 			return anySchema(o, func(s *proxyv1alpha1.FlowControlSchema) bool { return effective(s) == "none" })
 		},
@@ -424,7 +431,8 @@ var classes = []class{
 		},
 	},
 	{
-		name: "schema-global-less-than-local",
+		name:  "schema-global-less-than-local",
+		named: "contradictory ... flow-control configurations",
 		match: func(o *proxyv1alpha1.UpstreamCluster) bool {
 			return anySchema(o, func(s *proxyv1alpha1.FlowControlSchema) bool {
 				if s.MaxRequestsInflight != nil && s.GlobalMaxRequestsInflight != nil && effective(s) == "max" && s.GlobalMaxRequestsInflight.Max < s.MaxRequestsInflight.Max {
